@@ -153,7 +153,38 @@ static void c05_hist_child(const void *job, size_t n) {
 	res_printf("S %llx %llx\n", (unsigned long long) h.a, (unsigned long long) h.b);
 	res_finish();
 }
-void c05_register(void) { harness_register("c05.sched", c05_child); harness_register("c05.hist", c05_hist_child); }
+/* ---------------------------------------------------------------- c05.many: MANY deferred messages for one node
+ * A held message already owns its number, so losing one leaves a gap.  Node 1.0.0 is stalled (or its budget exhausted), N
+ * messages are submitted — N = 1, 2, 64, 127, 128, 129, 130, 200, 300 — then the stall is lifted / the answers arrive: all N reach
+ * the wire with consecutive numbers, across the 255 -> 1 wrap.  (The exploration bounds of the other harnesses hold a handful.) */
+static void many_child(const void *job, size_t n) {
+	vs_dev_t devs[VS_MAXDEV]; int nd; size_t pl; const uint8_t *p = job_parse(job, n, devs, &nd, &pl);
+	static const int NS[9] = {1, 2, 64, 127, 128, 129, 130, 200, 300}; int N = NS[p[0] % 9], by_budget = p[0] / 9;
+	hx_child_begin(NULL, 0, 0, NULL, 0, 1000000ull * 1000000ull);
+	if (hx_start_debug(0)) res_infra("start failed");
+	hx_quiesce();
+	static const uint8_t A[4] = {1, 0, 0, 0}; t_bidib_node_address na = {1, 0, 0}; int pings = 0;
+	if (!by_budget) { uint8_t on = 1; hx_feed_msg(A, 0, MSG_STALL, &on, 1); hx_quiesce(); }
+	else { for (int i = 0; i < 10; i++) bidib_send_sys_ping(na, (uint8_t) i, 0); pings = 10; bidib_flush(); }
+	for (int i = 0; i < N; i++) { bidib_send_sys_clock(na, (uint8_t) (i % 60), 0x80, 0x41, 0xC1, 0); if (i % 16 == 15) bidib_flush(); }
+	bidib_flush(); hx_quiesce();
+	if (!by_budget) { uint8_t off = 0; hx_feed_msg(A, 0, MSG_STALL, &off, 1); hx_quiesce(); }
+	else { for (int i = 0; i < 10; i++) { uint8_t d = (uint8_t) i; hx_feed_msg(A, 0, MSG_SYS_PONG, &d, 1); } hx_quiesce(); }
+	bidib_flush(); hx_quiesce();
+	uint8_t *um; while ((um = bidib_read_message())) free(um);
+	static rc_pkt_t pk[700]; char err[160]; int np = rc_decode_strict(env_out(), env_out_len(), pk, 700, err, sizeof err);
+	char what[120]; snprintf(what, sizeof what, "%d messages submitted while node 1.0.0 %s", N, by_budget ? "has no response budget left" : "is stalled");
+	if (np < 0) res_violation("wire-malformed", "%s: %s", what, err);
+	else { int expect = 1, count = 0;
+		for (int i = 0; i < np; i++) for (int k = 0; k < pk[i].nmsgs; k++) { rc_msg_t *m = &pk[i].msgs[k]; if (memcmp(m->addr, A, 4)) continue; count++;
+			if (m->seq != expect) { res_violation("wire-reorder per-node sequence numbers not consecutive in wire order", "%s: message %d to 1.0.0 carries number %d, expected %d", what, count, m->seq, expect); i = np; break; }
+			expect = expect == 255 ? 1 : expect + 1; }
+		if (!res_nviol() && count != N + pings) res_violation("deferred-message-lost-or-duplicated", "%s: %d messages to 1.0.0 on the wire, %d expected", what, count, N + pings); }
+	res_printf("O %x %x\n", N, by_budget);
+	res_finish();
+}
+static size_t many_gen(long idx, uint8_t *payload, char *human, size_t hn) { static const int NS[9] = {1, 2, 64, 127, 128, 129, 130, 200, 300}; payload[0] = (uint8_t) idx; snprintf(human, hn, "%d messages deferred by %s", NS[idx % 9], idx / 9 ? "an exhausted budget" : "a stall"); return 1; }
+void c05_register(void) { harness_register("c05.many", many_child); harness_register("c05.sched", c05_child); harness_register("c05.hist", c05_hist_child); }
 
 int c05_run(const char *tier) {
 	int thorough = !strcmp(tier, "thorough");
@@ -180,6 +211,8 @@ int c05_run(const char *tier) {
 	  e2_explore(&hs); states += hs.states; transitions += hs.transitions; execs += hs.execs; if (!hs.exhaustive) exhaustive = 0;
 	  char sb[200]; size_t o = 0; for (int i = 0; i <= hs.depth_completed + 1 && i < 16; i++) o += (size_t) snprintf(sb + o, sizeof sb - o, "%ld ", hs.states_by_depth[i]);
 	  rep_note("c05.hist (normal mode: commands, budget burst / release by the receiver, SecAck mirrors, node lost/new, system reset): %d events, depth %d, new states by depth: %s", H_N, hs.depth_completed, sb); }
+	{ ex_spec_t mn = { .harness = "c05.many", .ncases = 18, .gen = many_gen, .label = "c05.many" }; ex_map(&mn); execs += mn.done; states += mn.distinct_outcomes; if (!mn.exhaustive) exhaustive = 0;
+	  rep_note("c05.many: 1..300 messages deferred for one node by a stall / an exhausted budget, all on the wire with consecutive numbers afterwards (%ld cases)", mn.done); }
 	rep_count("states", states); rep_count("transitions", transitions); rep_count("executions", execs);
 	rep_count("completed_bound", minbound); rep_flag("exhaustive", exhaustive);
 	return 0;
